@@ -70,6 +70,36 @@ def plain_batch(ctx: Ctx, batch: list[tuple[int, bytes]], label: str) -> None:
         res.sample({"framing": "plaintext", "batch": [(ty, len(p)) for ty, p in batch], "written_head": t.writes[0][:24].hex()})
 
 
+def plain_session(ctx: Ctx, batches: list[list[tuple[int, bytes]]], label: str) -> None:
+    """Consecutive batches on ONE plaintext helper: every write decodes to its batch, and what was handed to the transport earlier stays intact."""
+    res = ctx.res
+    h, c, t, d = wire.make_plain()
+    d.start()
+    for k, batch in enumerate(batches):
+        n0 = len(t.writes)
+        h.write_packets(list(batch), k % 2 == 1)
+        res.evaluations += 1
+        res.count(f"plain/{label}")
+        case = {"framing": "plaintext", "batch": [(ty, len(p)) for ty, p in batch], "write_no": k}
+        new = t.writes[n0:]
+        if len(new) != 1:
+            res.violation("C02/writes-per-batch", f"{len(new)} transport writes for one batch of {len(batch)}", case)
+            return
+        try:
+            frames = refcodec.decode_plain_exact(new[0])
+        except refcodec.DecodeError as e:
+            res.violation("C02/plain/undecodable", f"write {k} of the session does not decode: {e}", case)
+            return
+        if frames != [(ty, bytes(p)) for ty, p in batch]:
+            res.violation("C02/plain/mismatch", f"write {k} of the session decoded {[(a, len(b)) for a, b in frames][:6]} != given batch", case)
+            return
+        stale = [a for a in t.changed_after_write() if a > 0]
+        if stale:
+            res.violation("C02/written-object-changed-after-write", f"the object handed to transport.write() {stale[0]} write(s) ago no longer holds the bytes it held then", case)
+            return
+        res.count("plain/frames_decoded_equal", len(frames))
+
+
 class NoiseSession:
     def __init__(self) -> None:
         self.psk = os.urandom(32)
@@ -86,6 +116,10 @@ def noise_batch(ctx: Ctx, s: NoiseSession, batch: list[tuple[int, bytes]], label
     new = s.t.writes[s.nwrites:]
     s.nwrites = len(s.t.writes)
     case = {"framing": "noise", "batch": [(ty, len(p)) for ty, p in batch], "first_frame_no": s.frame_no}
+    stale = [a for a in s.t.changed_after_write() if a > 0]
+    if stale:
+        res.violation("C02/written-object-changed-after-write", f"the object handed to transport.write() {stale[0]} write(s) ago no longer holds the bytes it held then "
+                      "(a transport under back-pressure still has it queued)", case)
     if len(new) != 1:
         res.violation("C02/writes-per-batch", f"{len(new)} transport writes for one batch of {len(batch)}", case)
         return False
@@ -134,6 +168,12 @@ def shard(ctx: Ctx) -> None:
             continue
         b = [(rng.choice(ids), pay(rng.choice([0, 1, 5, 60, 127, 128, 300, 2000]), k)) for _ in range(rng.randint(1, 8))]
         plain_batch(ctx, b, "batch")
+    # ---- plaintext: consecutive writes on one helper (sizes growing and shrinking, so that any reused output buffer is both extended and re-used)
+    for k in range(12 if ctx.thorough else 3):
+        idx += 1
+        if ctx.mine(idx):
+            sizes = [0, 5, 300, 2, 70000, 1, 128, 16384, 0, 127, 3, 65536, 7] if k % 2 == 0 else [rng.choice([0, 1, 9, 60, 255, 4000]) for _ in range(40)]
+            plain_session(ctx, [[(rng.choice(ids), pay(n, j + k)) for _ in range(1 + (j + k) % 3)] for j, n in enumerate(sizes)], "one-helper-many-writes")
     # ---- noise: one session per shard, sweep ids x sizes, batches, then a long tail for nonce continuity
     s = NoiseSession()
     for ty in ids + [max(ids) + 1, 255, 256, 65535]:
